@@ -8,11 +8,13 @@ EPS = ["", "ε", "_", "e"]
 
 
 @st.composite
-def pda_specs(draw, max_states=4, sigma=None, max_gamma=3, max_trans=8, eps_choices=EPS, pool=POOL, min_trans=1):
+def pda_specs(draw, max_states=4, sigma=None, max_gamma=3, max_trans=8, eps_choices=EPS, pool=POOL, min_trans=1, multichar=False):
     n = draw(st.integers(1, max_states))
     Q = draw(names(n, pool))
     S = list(sigma) if sigma is not None else draw(st.sampled_from([["a"], ["a", "b"], ["a", "b"], []]))
     gchoices = [g for g in STACK]
+    if multichar and draw(st.integers(0, 5)) == 0:
+        gchoices = ["X", "XX", "XY", "Y"]        # stack symbols of different lengths whose concatenations coincide ([X,X] vs [XX])
     G = draw(st.lists(st.sampled_from(gchoices), min_size=1, max_size=max_gamma, unique=True))
     eps = draw(st.sampled_from([e for e in eps_choices if e not in S and e not in G]))
     m = draw(st.integers(min_trans, max_trans))
@@ -107,13 +109,21 @@ def _counter_and_sink(eps):
             "q0": "s", "F": ["f"], "eps": eps}
 
 
+def _ambiguous_stacks(eps):
+    # stack symbols X and XX: the stacks [X, X] and [XX] spell the same text but are different; only the first one leads to acceptance (a b b)
+    return {"Q": ["q0", "q1", "q2", "q3", "q4"], "S": ["a", "b"], "G": ["X", "XX"],
+            "d": [["q0", "a", eps, "q1", "X"], ["q1", eps, eps, "q2", "X"], ["q0", "a", eps, "q2", "XX"], ["q2", "b", "X", "q3", eps], ["q3", "b", "X", "q4", eps]],
+            "q0": "q0", "F": ["q4"], "eps": eps}
+
+
 TEMPLATES = [_anbn, _pal, _nonempty_stack, _replace, _diamond, _replace_only, _counter_and_sink]
+TEMPLATES_MULTICHAR = TEMPLATES + [_ambiguous_stacks]
 
 
 @st.composite
-def structured_pda_specs(draw, eps_choices=("", "ε", "_"), max_noise=2):
+def structured_pda_specs(draw, eps_choices=("", "ε", "_"), max_noise=2, multichar=False):
     eps = draw(st.sampled_from(list(eps_choices)))
-    spec = draw(st.sampled_from(TEMPLATES))(eps)
+    spec = draw(st.sampled_from(TEMPLATES_MULTICHAR if multichar else TEMPLATES))(eps)
     spec["Q"] = spec["Q"] + spec.pop("_extraQ", [])
     Q, S, Gm = spec["Q"], spec["S"], spec["G"]
     for _ in range(draw(st.integers(0, max_noise))):
@@ -134,4 +144,4 @@ def structured_pda_specs(draw, eps_choices=("", "ε", "_"), max_noise=2):
 
 
 def mixed_pda_specs(**kw):
-    return st.one_of(pda_specs(**kw), pda_specs(**kw), structured_pda_specs())
+    return st.one_of(pda_specs(multichar=True, **kw), pda_specs(**kw), structured_pda_specs(multichar=True))
